@@ -938,7 +938,8 @@ Proof.
   intros S Hm [Ho Hch] Ha. assert (Hq := rs_queue _ _ _ _ S). assert (Hpd := rs_pend _ _ _ _ S). assert (W := rs_wf _ _ _ _ S).
   destruct Ho as [o Hqo Hn|p Hn|p Hn Hr|p q ep Np Nq El De Ed|p q ep Np Nq Hrec El De Sp Hpr Sq Elq
                   |p q ep Np Nq Hrec Hfix El De Sp Hpr Sq Elq|p q ep v Np Nq Hrec El De Sp Hpr Sq Hqr Elq Dv
-                  |p q ep Np Nq El De Hpr Hqr Hupr Hpl].
+                  |p q ep Np Nq El De Hpr Hqr Hupr Hpl|p q ep v Np Nq Hrec Hfix El De Sp Hpr Sq Hqr Elq Dv].
+  9:{ exfalso. destruct Hch as [Sp' _]; [unfold fisdir; now rewrite El | contradiction]. }
   8:{ exfalso. destruct Hch as (Sp & Hrec & _); [unfold fisdir; now rewrite El|]. destruct Hpl as [Hf|[Hs _]]; [congruence | contradiction]. }
   7:{ exfalso. destruct Hch as (_ & _ & Hn); [unfold fisdir; now rewrite El | congruence]. }
   6:{ exfalso. destruct Hch as [Sp' _]; [unfold fisdir; now rewrite El | contradiction]. }
@@ -997,7 +998,8 @@ Proof.
   intros W [Ho Hch] Ha.
   destruct Ho as [o Hqo Hn|p Hn|p Hn Hr|p q ep Np Nq El De Ed|p q ep Np Nq Hrec El De Sp Hpr Sq Elq
                   |p q ep Np Nq Hrec Hfix El De Sp Hpr Sq Elq|p q ep v Np Nq Hrec El De Sp Hpr Sq Hqr Elq Dv
-                  |p q ep Np Nq El De Hpr Hqr Hupr Hpl].
+                  |p q ep Np Nq El De Hpr Hqr Hupr Hpl|p q ep v Np Nq Hrec Hfix El De Sp Hpr Sq Hqr Elq Dv].
+  9:{ exfalso. destruct Hch as [Sp' _]; [unfold fisdir; now rewrite El | contradiction]. }
   8:{ exfalso. destruct Hch as (Sp & Hrec & _); [unfold fisdir; now rewrite El|]. destruct Hpl as [Hf|[Hs _]]; [congruence | contradiction]. }
   7:{ exfalso. destruct Hch as (_ & _ & Hn); [unfold fisdir; now rewrite El | congruence]. }
   6:{ exfalso. destruct Hch as [Sp' _]; [unfold fisdir; now rewrite El | contradiction]. }
@@ -1165,12 +1167,12 @@ Section InSem.
 
   (* what these events do to the tree *)
   Lemma movein_sem w p q w' ep : wf_fs w -> npath p -> npath q -> apply_op w (Rename p q) = Some w' ->
-    flookup p (w_fs w) = Some ep -> f_dir ep = true -> flookup q (w_fs w) = None ->
+    flookup p (w_fs w) = Some ep -> f_dir ep = true ->
     (forall x, ins x = true -> below p x = false) -> ins q = true ->
     peq (fputs ((q, true) :: map (fun d : kind * list bytes => (q ++ relsuffix (snd d), kdir (fst d)))
                                  (desc [] (content (w_fs w') q))) (tlw w)) (tlw w').
   Proof.
-    intros W Np Nq Ha El De Elq Hp Hq x.
+    intros W Np Nq Ha El De Hp Hq x.
     assert (W' : wf_fs w') by exact (wf_apply_op w (Rename p q) w' W (conj Np Nq) Ha).
     destruct (rename_look w p q w' W Np Nq Ha) as (ep' & El' & Hne & Hupq & Huqp & Hbq & _ & Hfd).
     assert (ep' = ep) by congruence. subst ep'.
@@ -1247,13 +1249,103 @@ Proof.
   { apply content_wf. intros e He. apply npath_wf_path. exact (wf_np w' W' e He). }
   intros x. rewrite (replay_sem_list (c_recursive C) (c_root C) _ t (tl (c_recursive C) (c_root C) w) Tn Tg x).
   rewrite (freplays_movein (c_recursive C) full (c_root C) _ q _ (proj1 Hq0) (proj2 Hq0) Hwf).
-  apply (movein_sem (c_recursive C) (c_root C) w p q w' ep W Np Nq Ha El De Elq).
+  apply (movein_sem (c_recursive C) (c_root C) w p q w' ep W Np Nq Ha El De).
   - intros y Hy. unfold in_scope in Hy. rewrite Hrec in Hy. cbn [orb] in Hy. rewrite andb_true_r in Hy.
     assert (Sy : scope C y) by (unfold scope; rewrite Hrec; now right).
     destruct (scope_not_below C p y Hrec Sp Hpr Sy) as [E1 E2]. unfold below. apply beqb_neq in E1. now rewrite E1, E2.
   - unfold in_scope. rewrite Hrec. cbn [orb]. rewrite andb_true_r. unfold scope in Sq. rewrite Hrec in Sq.
     destruct Sq as [->|Sq]; [|exact Sq]. exfalso. destruct (rs_root _ _ _ _ S) as (er & Her & Eer & _).
     apply CoverProofs.flookup_none in Elq. apply Elq. rewrite <- Eer. now apply in_map.
+Qed.
+
+(* ---------------------------------------------------------------- ... over an empty directory of the tree *)
+Definition neutral_ev (e : nevent) : Prop :=
+  match cls_what (ev_cls e) with WCreated | WDeleted | WMoved => False | _ => True end.
+
+Lemma freplays_neutral recursive root evs : Forall neutral_ev evs -> forall g, freplays recursive root g evs = g.
+Proof.
+  induction 1 as [|e evs He _ IH]; intros g; cbn [freplays fold_left]; [reflexivity|]. fold (freplays recursive root).
+  destruct e as [c s d sy]. unfold neutral_ev in He. cbn [ev_cls] in He. rewrite (fr_neutral recursive root g c s d sy He). apply IH.
+Qed.
+
+Lemma freplays_app recursive root g a b :
+  freplays recursive root g (a ++ b) = freplays recursive root (freplays recursive root g a) b.
+Proof. unfold freplays. apply fold_left_app. Qed.
+
+Lemma group_go_noto C b : (forall e c, In e b -> nkind_of C e <> KTo c) -> forall g, group_go C b g = g ++ map Single b.
+Proof.
+  induction b as [|e b IH]; intros H g; cbn [group_go map]; [now rewrite app_nil_r|].
+  assert (H' : forall e0 c, In e0 b -> nkind_of C e0 <> KTo c) by (intros; apply H; now right).
+  destruct (nkind_of C e) eqn:Ek; try (rewrite IH by exact H'; now rewrite <- app_assoc).
+  exfalso. exact (H e cookie (or_introl eq_refl) Ek).
+Qed.
+
+(* records about a replaced (non-root) directory produce events that leave the tree alone *)
+Definition victim_raw (C : cfg) (q : bytes) (e : raw) : Prop :=
+  (r_mask e = N.lor IN_ATTRIB IN_ISDIR \/ r_mask e = IN_DELETE_SELF \/ r_mask e = IN_IGNORED) /\ r_path e = q.
+
+Lemma emit_all_victims C full rec ct q its : q <> c_root C ->
+  Forall (fun it => exists e, it = Single e /\ victim_raw C q e) its ->
+  Forall neutral_ev (emit_all full rec (c_root C) ct its).
+Proof.
+  intros Hq. induction 1 as [|it its (e & -> & [Hm Hp]) _ IH]; cbn [emit_all]; [constructor|].
+  assert (E : emit full rec (c_root C) ct (Single e) = ([mk (modified_cls true) q []], false) \/
+              emit full rec (c_root C) ct (Single e) = ([], false)).
+  { cbn [emit]. unfold emit_single. rewrite Hp. apply beqb_neq in Hq. destruct Hm as [-> | [-> | ->]].
+    - left. reflexivity.
+    - right. cbn. rewrite Hq. destruct full; reflexivity.
+    - right. destruct full; reflexivity. }
+  destruct E as [-> | ->]; cbn [app]; [constructor; [exact I | exact IH] | exact IH].
+Qed.
+
+Theorem replay_step_in_over C full w k r p q ep v w' t : c_faults C = [] -> c_mask C = WATCHDOG_ALL -> RSync C w k r ->
+  npath p -> npath q -> c_recursive C = true -> c_fix_movein C = true ->
+  flookup p (w_fs w) = Some ep -> f_dir ep = true -> ~ scope C p -> under p (c_root C) = false -> scope C q -> q <> c_root C ->
+  flookup q (w_fs w) = Some v -> f_dir v = true -> apply_op w (Rename p q) = Some w' -> TInv (c_recursive C) (c_root C) t w ->
+  let k1 := kernel_op k (w_fs w) (Rename p q) in
+  exists r' k' raws,
+    read_batch C (w_fs w') (r, drainq k1, []) (k_queue k1) = Done (r', k', raws) /\ RSync C w' k' r' /\
+    deliver_one C full w k r (Rename p q) = Some (delivered C full w' raws) /\
+    TInv (c_recursive C) (c_root C) (replay (c_recursive C) (c_root C) t (delivered C full w' raws)) w'.
+Proof.
+  intros Hf Hm S Np Nq Hrec Hfix El De Sp Hpr Sq Hqr Elq Dv Ha [Tn Tg] k1.
+  assert (M : mask_ok C) by (unfold mask_ok; rewrite Hm; repeat split; vm_compute; discriminate).
+  destruct M as (M1 & M2 & M3).
+  destruct (step_rename_dir_in_over_ev C Hf w k r p q w' ep v S Np Nq Hrec Hfix M2 M3 Ha El De Sp Hpr Sq Hqr Elq Dv)
+    as (r' & k' & wd & rest & Hrd & S' & Hrest).
+  fold k1 in Hrd. eexists r', k', _. split; [exact Hrd|]. split; [exact S'|]. split.
+  { unfold deliver_one. rewrite Ha. change (kdrained (kernel_op k (w_fs w) (Rename p q))) with (drainq k1). fold k1. now rewrite Hrd. }
+  assert (W := rs_wf _ _ _ _ S). assert (W' := rs_wf _ _ _ _ S').
+  split; [now apply replay_nodup|].
+  set (a := {| r_wd := wd; r_mask := N.lor IN_MOVED_TO IN_ISDIR; r_cookie := k_next_cookie k; r_name := basename q; r_path := q |}).
+  assert (Hv : Forall (victim_raw C q) rest).
+  { eapply Forall_impl; [|exact Hrest]. intros e [[[H|H]|H] Ep]; split; auto. }
+  (* the delivered stream: the move-in events, then events that leave the tree alone *)
+  assert (Hdel : exists tail, delivered C full w' (a :: rest) = movein_events full q (content (w_fs w') q) ++ tail /\ Forall neutral_ev tail).
+  { unfold delivered, group_batch. cbn [group_go]. change (nkind_of C a) with (KTo (k_next_cookie k)). cbn [pair_in_batch app].
+    rewrite group_go_noto.
+    2:{ intros e c He. rewrite Forall_forall in Hv. destruct (Hv e He) as [Hm' _]. unfold nkind_of.
+        destruct Hm' as [-> | [-> | ->]]; cbn; discriminate. }
+    cbn [app filter put_item]. change (nkind_of C a) with (KTo (k_next_cookie k)). cbn [emit_all emit]. unfold emit_single.
+    cbn [r_mask r_path a]. change (Emitter.is_moved_to (N.lor IN_MOVED_TO IN_ISDIR)) with true.
+    change (Emitter.is_directory (N.lor IN_MOVED_TO IN_ISDIR)) with true. rewrite Hrec. cbn [andb]. cbv iota beta.
+    eexists. split; [unfold movein_events; rewrite <- app_comm_cons; reflexivity|].
+    apply (emit_all_victims C full _ _ q _ Hqr). apply Forall_forall. intros it Hit. apply filter_In in Hit as [Hit _].
+    apply in_map_iff in Hit as (e & <- & He). exists e. split; [reflexivity|]. rewrite Forall_forall in Hv. now apply Hv. }
+  destruct Hdel as (tail & -> & Hn).
+  assert (Hq0 : q <> [] /\ last_is_sep q = false).
+  { destruct Nq as (d & n & -> & _ & Hvn). split; [now destruct d | now apply child_last_sep]. }
+  assert (Hwf : wf_tree (content (w_fs w') q) = true).
+  { apply content_wf. intros e He. apply npath_wf_path. exact (wf_np w' W' e He). }
+  intros x. rewrite (replay_sem_list (c_recursive C) (c_root C) _ t (tl (c_recursive C) (c_root C) w) Tn Tg x).
+  rewrite freplays_app. rewrite (freplays_neutral _ _ tail Hn).
+  rewrite (freplays_movein (c_recursive C) full (c_root C) _ q _ (proj1 Hq0) (proj2 Hq0) Hwf).
+  apply (movein_sem (c_recursive C) (c_root C) w p q w' ep W Np Nq Ha El De).
+  - intros y Hy. unfold in_scope in Hy. rewrite Hrec in Hy. cbn [orb] in Hy. rewrite andb_true_r in Hy.
+    assert (Sy : scope C y) by (unfold scope; rewrite Hrec; now right).
+    destruct (scope_not_below C p y Hrec Sp Hpr Sy) as [E1 E2]. unfold below. apply beqb_neq in E1. now rewrite E1, E2.
+  - unfold in_scope. rewrite Hrec. cbn [orb]. rewrite andb_true_r. unfold scope in Sq. rewrite Hrec in Sq.
+    destruct Sq as [->|Sq]; [contradiction | exact Sq].
 Qed.
 
 (* the operations of the replay law: those whose events are C03's contract (c01_op0), and a directory moved into the tree *)
